@@ -5,6 +5,7 @@ import (
 	"os"
 	"path/filepath"
 	"strings"
+	"sync/atomic"
 	"time"
 
 	"github.com/internetarchive/Zeno/internal/pkg/controler"
@@ -273,6 +274,44 @@ func c01(r *vc.Run) int {
 		absorb(r, m, res, label, sc, true)
 		os.RemoveAll(dir)
 	})
+	// runs that are stopped in the middle (child of C04): a seed acknowledged as finished during the shutdown
+	// sequence must not have nodes that still await work either
+	stopRuns := r.N(5, 30)
+	var stopChecked atomic.Int64
+	var seqCtr atomic.Int64
+	parallel(stopRuns, 10, func(i int) {
+		org, err := newOrigin(func() int64 { return seqCtr.Add(1) })
+		if err != nil {
+			return
+		}
+		defer org.close()
+		site := &genSite{o: org, port: org.Port, rng: pipeRand(r.Seed, "c01stop", i)}
+		site.build(20, 1)
+		drng := pipeRand(r.Seed, "c01stopdelay", i)
+		org.mu.Lock()
+		for _, rt := range org.routes {
+			if drng.Intn(2) == 0 {
+				rt.DelayMs = 20 + drng.Intn(200)
+			}
+		}
+		org.mu.Unlock()
+		trig := [][]trigger{{{"arch.do", 4, "stop"}}, {{"arch.resp", 7, "stop"}}, {{"post.recv", 3, "stop"}}, {{"arch.do", 11, "stop"}}, {{"fin.feedback", 2, "stop"}}, {{"arch.feedback.done", 5, "stop"}}}[i%6]
+		sc := c04Scenario{Seed: r.Seed, Index: 9000 + i, Cfg: pipeConfig{Workers: 1 + i%4, MaxConcurrentAssets: 2, MaxHops: 1, MaxRetry: 1, MaxRedirect: 5, WARCPoolSize: 1, DisableSeencheck: i%2 == 0}, InputSeeds: site.Hubs, Triggers: trig, Run: 1}
+		dir := filepath.Join(r.Scratch, fmt.Sprintf("c01-stop-%d", i))
+		res := runChild(os.Getenv("VZ_BIN"), "pipe-c04", sc, dir, 4*time.Minute)
+		if crashed, excerpt := res.Crashed(); crashed {
+			r.Violation("crash/"+crashSig(res.Stderr), fmt.Sprintf("stop-run%d crashed: %s", i, truncate(excerpt, 500)), map[string]any{"scenario": sc})
+		}
+		stopChecked.Add(int64(len(readEvents(filepath.Join(dir, "events.log")))))
+		if b, err := os.ReadFile(filepath.Join(dir, "inline-1.log")); err == nil {
+			for _, l := range strings.Split(strings.TrimSpace(string(b)), "\n") {
+				if l != "" {
+					r.Violation("pending-node-at-finish/during-stop", fmt.Sprintf("stop-run%d %v: a seed was reported finished while nodes of its tree still awaited work: %s", i, trig, truncate(l, 500)), map[string]any{"scenario": sc})
+				}
+			}
+		}
+		os.RemoveAll(dir)
+	})
 	for s, n := range m.Races {
 		r.Note("race report x%d: %s", n, s)
 	}
@@ -289,6 +328,8 @@ func c01(r *vc.Run) int {
 		"samples":                m.Samples,
 		"events":                 m.Events,
 		"pipeline_runs":          m.Children,
+		"stopped_mid_flight_runs": stopRuns,
+		"stopped_mid_flight_events": int(stopChecked.Load()),
 		"interleaving_signatures": interleavings,
 	}
 	if cov["samples"] == nil {
